@@ -105,11 +105,10 @@ def debug_class(op, impl):
 
 
 def is_digit(c, radix):
-    ch = chr(c)
-    if ch.isdigit():
-        return int(ch) < radix
-    if ch.isalpha() and ch.isascii():
-        return ord(ch.lower()) - 87 < radix
+    if 48 <= c <= 57:
+        return c - 48 < radix
+    if 65 <= c <= 90 or 97 <= c <= 122:
+        return (c | 32) - 87 < radix
     return False
 
 
@@ -125,14 +124,24 @@ def c11_class(op, impl):
     first = rest[0] if rest else None     # byte right after the optional sign
     n = int(it[2]) if it[0] == "ok" and len(it) > 2 and it[2].isdigit() else None
     consumed = inp[:n] if n is not None else b""
-    if k == "pi" and f["suffix"]:
-        return "int-base-suffix-partial"
+    # known: with a base suffix the partial parser steps over the byte after the digits ("1+1" -> Ok((1, 2))): the consumed
+    # prefix is digits followed by exactly one byte that is neither a digit nor the suffix
+    if k == "pi" and f["suffix"] and n is not None:
+        core0 = bytes(c for c in consumed[sign_len:] if not (sep and c == sep))
+        if f["prefix"] and core0[:1] == b"0" and core0[1:2].lower() == bytes([f["prefix"]]).lower():
+            core0 = core0[2:]                       # a base prefix before the digits
+        if len(core0) >= 2 and all(is_digit(c, f["radix"]) for c in core0[:-1]) and not is_digit(core0[-1], f["radix"]) \
+                and not (core0[-1] == f["suffix"] or (not (f["flags"] & 0x20000) and bytes([core0[-1]]).lower() == bytes([f["suffix"]]).lower())):
+            return "int-base-suffix-partial"
     core = bytes(c for c in consumed[sign_len:] if not (sep and c == sep))     # separators stepped over on the way
     if k == "pi" and f["prefix"] and core[:1] == b"0" and len(core) == 2 and core[-1:].lower() == bytes([f["prefix"]]).lower():
         return "int-base-prefix-without-digits"
     if k == "pf" and f["radix"] >= 19 and first is not None and chr(first).lower() in "ni":
         return "special-letters-are-digits"
-    if n is not None and sep and consumed[-1:] == bytes([sep]):
+    # known: the count includes a trailing separator the complete parser rejects — hex-float formats (exponent digits tested with
+    # the mantissa radix) and formats that require no digits (a separator run is then a whole "number")
+    if k == "pf" and n is not None and sep and consumed[-1:] == bytes([sep]) and \
+            (f["radix"] != f["exprad"] or not (f["req_mant"] or f["req_int"])):
         return "partial-count-includes-trailing-separator"
     if k == "pi" and f["nolz_int"] and rest[:1] == b"0":
         return "int-no-leading-zeros-partial"
